@@ -133,7 +133,8 @@ type blockCrypt struct {
 	encbuf    []byte // encryption working buffer
 	decbuf    []byte // decryption working buffer
 	block     cipher.Block
-	blockSize int // cached block size
+	decBlock  cipher.Block // cipher value used by Decrypt; differs from block when the cipher is not safe for concurrent use
+	blockSize int          // cached block size
 }
 
 //go:nosplit
@@ -146,14 +147,19 @@ func (c *blockCrypt) Encrypt(dst, src []byte) {
 //go:nosplit
 func (c *blockCrypt) Decrypt(dst, src []byte) {
 	c.decMu.Lock()
-	decrypt(c.block, dst, src, c.decbuf)
+	decrypt(c.decBlock, dst, src, c.decbuf)
 	c.decMu.Unlock()
 }
 
-func newBlockCrypt(block cipher.Block) BlockCrypt {
+func newBlockCrypt(block cipher.Block) BlockCrypt { return newBlockCryptPair(block, block) }
+
+// newBlockCryptPair uses decBlock in Decrypt; it differs from block for ciphers whose
+// value is not safe for concurrent use (Encrypt and Decrypt hold different mutexes).
+func newBlockCryptPair(block, decBlock cipher.Block) BlockCrypt {
 	blockSize := block.BlockSize()
 	return &blockCrypt{
 		block:     block,
+		decBlock:  decBlock,
 		blockSize: blockSize,
 		encbuf:    make([]byte, blockSize),
 		decbuf:    make([]byte, 2*blockSize),
@@ -203,7 +209,14 @@ func NewSM4BlockCrypt(key []byte) (BlockCrypt, error) {
 	if err != nil {
 		return nil, err
 	}
-	return newBlockCrypt(block), nil
+	// The gmsm SM4 cipher keeps scratch buffers inside the cipher value, so one value
+	// must not run in two goroutines at once. Encrypt and Decrypt hold different
+	// mutexes and both use the forward direction (CFB): give Decrypt its own value.
+	decBlock, err := sm4.NewCipher(key)
+	if err != nil {
+		return nil, err
+	}
+	return newBlockCryptPair(block, decBlock), nil
 }
 
 // NewTwofishBlockCrypt https://en.wikipedia.org/wiki/Twofish
